@@ -15,6 +15,14 @@
 //                          .hist file: any encoding, it is unmarshalled into <type>)
 //         R <hex>          the inner codec is a stub returning exactly these bytes
 //         E <name> [hex]   the inner codec fails (see errCase)
+//         A <n> (<type> <hex>)*n   a SEQUENCE of n Marshal calls on one codec (type Raw = stub
+//                          inner codec returning the bytes); its line is
+//   H A n t1 hex1 .. ; OK <hex out_1 at return> .. <hex out_n at return> ; L x1..xn M x1..xn S x2..xn CRC c1..cn
+//                          where the harness keeps the very slices the calls returned (no copy) and
+//                          reads them again: L after all n calls, M after overwriting the slices the
+//                          inner codec returned and the input messages, S after overwriting the
+//                          outputs of the earlier calls; x = "=" if the slice still reads as it did
+//                          when it was returned, else its hex now.  Outputs must be independent values.
 // CRC: hash/crc32 Castagnoli of the inner bytes (independent oracle).
 // RT:  1 = myCodec.Unmarshal and proto.Unmarshal of the output both give back a
 //      message Equal to the original once unknown fields are discarded, and its
@@ -790,6 +798,182 @@ func (r *runner) runErr(name string, arg []byte) bool {
 	return true
 }
 
+// ---------------------------------------------------------------- sequences (kind A)
+type seqItem struct {
+	tname string
+	msg   protoV2.Message // nil for Raw
+	raw   []byte
+}
+
+// seqRecorder: inner codec switchable per call; remembers, per call, a copy of
+// what the inner codec returned AND the returned slice itself
+type seqRecorder struct {
+	inner  encoding.Codec
+	copies [][]byte
+	raws   [][]byte
+	errs   []error
+}
+
+func (r *seqRecorder) Marshal(v interface{}) ([]byte, error) {
+	b, err := r.inner.Marshal(v)
+	r.copies = append(r.copies, append([]byte(nil), b...))
+	r.raws = append(r.raws, b)
+	r.errs = append(r.errs, err)
+	return b, err
+}
+func (r *seqRecorder) Unmarshal(data []byte, v interface{}) error { return r.inner.Unmarshal(data, v) }
+func (r *seqRecorder) String() string                              { return "seqRecorder" }
+func (r *seqRecorder) Name() string                                { return "seqRecorder" }
+
+// overwrite, in place, every bytes field reachable from m, then clear m
+func scribbleMessage(m protoreflect.Message, depth int) {
+	m.Range(func(fd protoreflect.FieldDescriptor, v protoreflect.Value) bool {
+		switch {
+		case fd.IsMap():
+			return true
+		case fd.IsList():
+			l := v.List()
+			for i := 0; i < l.Len(); i++ {
+				if fd.Kind() == protoreflect.BytesKind {
+					b := l.Get(i).Bytes()
+					for j := range b {
+						b[j] ^= 0xFF
+					}
+				} else if fd.Kind() == protoreflect.MessageKind && depth > 0 {
+					scribbleMessage(l.Get(i).Message(), depth-1)
+				}
+			}
+		case fd.Kind() == protoreflect.BytesKind:
+			b := v.Bytes()
+			for j := range b {
+				b[j] ^= 0xFF
+			}
+		case fd.Kind() == protoreflect.MessageKind && depth > 0:
+			scribbleMessage(v.Message(), depth-1)
+		}
+		return true
+	})
+	u := m.GetUnknown()
+	for j := range u {
+		u[j] ^= 0xFF
+	}
+}
+
+func reread(kept [][]byte, atRet []string, from int) string {
+	var sb strings.Builder
+	for i := from; i < len(kept); i++ {
+		if h := hx(kept[i]); h == atRet[i] {
+			sb.WriteString(" =")
+		} else {
+			sb.WriteString(" " + h)
+		}
+	}
+	return sb.String()
+}
+
+func (r *runner) runSeq(items []seqItem) {
+	r.st.kinds["A"]++
+	n := len(items)
+	rec := &seqRecorder{}
+	mc := &myCodec{protoCodec: rec} // one codec for the whole sequence, as in production
+	kept := make([][]byte, n)       // the returned slices themselves, not copies
+	atRet := make([]string, n)
+	var op, outTok, crcTok strings.Builder
+	fmt.Fprintf(&op, "H A %d", n)
+	outTok.WriteString("OK")
+	small := 0
+	for i, it := range items {
+		var v interface{} = "ignored"
+		if it.msg != nil {
+			rec.inner, v = realInner(), it.msg
+		} else {
+			rec.inner = &stub{b: it.raw}
+		}
+		out, err := mc.Marshal(v)
+		kept[i] = out
+		atRet[i] = hx(out)
+		if err != nil {
+			outTok.WriteString(" !" + atRet[i])
+		} else {
+			outTok.WriteString(" " + atRet[i])
+		}
+		inner := []byte(nil)
+		if len(rec.copies) > i {
+			inner = rec.copies[i]
+		}
+		if len(inner) <= 58 {
+			small++
+		}
+		fmt.Fprintf(&op, " %s %s", it.tname, hx(inner))
+		fmt.Fprintf(&crcTok, " %d", crc32.Checksum(inner, crc32.MakeTable(crc32.Castagnoli)))
+		r.st.sizes[sizeClass(len(inner))]++
+	}
+	if small == n {
+		r.st.feats["A:all-inner<=58"]++
+	} else if small > 0 {
+		r.st.feats["A:some-inner<=58"]++
+	}
+	// (a) after the later calls
+	l := reread(kept, atRet, 0)
+	// (b) after overwriting what the inner codec returned and the input messages
+	for i, it := range items {
+		if i < len(rec.raws) && (i >= len(rec.errs) || rec.errs[i] == nil) {
+			b := rec.raws[i]
+			for j := range b {
+				b[j] ^= 0xFF
+			}
+		}
+		if it.msg != nil {
+			scribbleMessage(it.msg.ProtoReflect(), 4)
+			protoV2.Reset(it.msg)
+		}
+	}
+	m := reread(kept, atRet, 0)
+	// (c) output j after overwriting the outputs of all earlier calls i < j
+	sOut := ""
+	for j := 1; j < n; j++ {
+		for k := range kept[j-1] {
+			kept[j-1][k] = 0xAA
+		}
+		if h := hx(kept[j]); h == atRet[j] {
+			sOut += " ="
+		} else {
+			sOut += " " + h
+		}
+	}
+	if strings.Trim(l+m+sOut, " =") != "" {
+		r.st.outcomes["A:output-changed-later"]++
+	}
+	fmt.Fprintf(r.w, "%s ; %s ; L%s M%s S%s CRC%s\n", op.String(), outTok.String(), l, m, sOut, crcTok.String())
+}
+
+var seqRawLens = []int{0, 1, 2, 10, 30, 52, 57, 58, 59, 60, 64, 100, 200}
+
+func (r *runner) randomSeq(g *rng) {
+	n := 2 + g.intn(2)
+	items := make([]seqItem, n)
+	for i := range items {
+		if g.chance(30) {
+			items[i] = seqItem{tname: "Raw", raw: g.bytes(seqRawLens[g.intn(len(seqRawLens))])}
+			continue
+		}
+		budget := g.intn(40) // keeps most inner encodings <= 58 bytes
+		if g.chance(25) {
+			budget = g.intn(400)
+		}
+		t := &mtypes[g.intn(len(mtypes))]
+		msg := t.mk()
+		q := &gen{g: g, budget: budget}
+		q.fill(msg.ProtoReflect(), 1+g.intn(3), true)
+		if protoV2.CheckInitialized(msg) != nil { // proto2 required field missing: the inner codec would fail
+			items[i] = seqItem{tname: "Raw", raw: g.bytes(g.intn(59))}
+			continue
+		}
+		items[i] = seqItem{tname: t.name, msg: msg}
+	}
+	r.runSeq(items)
+}
+
 var errNames = []string{"nonproto", "nonproto-struct", "nil", "nilmsg", "utf8", "required", "required-nested", "stub", "stubnil"}
 
 // ---------------------------------------------------------------- generators
@@ -905,6 +1089,36 @@ func (r *runner) runHistLine(line string) error {
 			return err
 		}
 		r.runRaw(b)
+	case "A":
+		if len(t) < 3 {
+			return fmt.Errorf("bad A line %q", line)
+		}
+		n, err := strconv.Atoi(t[2])
+		if err != nil || n < 1 || len(t) != 3+2*n {
+			return fmt.Errorf("bad A line %q", line)
+		}
+		items := make([]seqItem, n)
+		for i := 0; i < n; i++ {
+			tn, h := t[3+2*i], t[4+2*i]
+			b, err := unhx(h)
+			if err != nil {
+				return err
+			}
+			if tn == "Raw" {
+				items[i] = seqItem{tname: "Raw", raw: b}
+				continue
+			}
+			mt := typeByName(tn)
+			if mt == nil {
+				return fmt.Errorf("unknown message type %q", tn)
+			}
+			msg := mt.mk()
+			if err := (protoV2.UnmarshalOptions{AllowPartial: true}).Unmarshal(b, msg); err != nil {
+				return fmt.Errorf("history line %q: %v", line, err)
+			}
+			items[i] = seqItem{tname: mt.name, msg: msg}
+		}
+		r.runSeq(items)
 	case "E":
 		var arg []byte
 		if len(t) >= 4 {
@@ -1044,8 +1258,10 @@ func TestVerifCodec(t *testing.T) {
 	for i := 0; i < n; i++ {
 		b := r.budget(g, maxLen, hugePPM)
 		switch x := g.intn(100); {
-		case x < 80:
+		case x < 70:
 			r.randomMessage(g, b)
+		case x < 82:
+			r.randomSeq(g)
 		case x < 92:
 			r.randomRaw(g, b)
 		default:
